@@ -31,4 +31,30 @@ CHECKS = {
                 'after-return and result/-contents checks on real instructions.',
         'note': _TB + '; root user: read-only directories cannot obstruct removal here',
     },
+    'C13': {
+        'category': 'exploration',
+        'technique': 'runtime monitoring: in-situ contract on interval_of_matcher (accepted line numbers lie in the returned interval) + boundary comparison of filter output with per-line reference evaluation',
+        'text': 'All line-matcher trees of depth<=2 over line-num comparisons (both matcher levels, with negations), contents matchers and '
+                'constants x texts of 0,1,3,6 lines, all single ranges and pairs of ranges, plus seeded deeper trees and range lists, are run '
+                'through the real `filter` transformer (20 per test case); each output is compared with per-line evaluation by an '
+                'independent evaluator, and inside every run the contract M5 checks the read-ahead interval against the real matcher object.',
+        'note': _TB + '; line texts from {a,b,c}; precedence/layout left to C06',
+    },
+    'C16': {
+        'category': 'exploration',
+        'technique': 'runtime monitoring: execution log written by the generated cases + reporter output parsers, checked offline against a reference enumeration',
+        'text': 'Generated suite hierarchies (all 11 verdict classes at 5 positions, 82 invalid-suite trees, ordering trees, seeded random trees) '
+                'are run through the real CLI with both reporters; the log of executed cases, exit code, progress events and JUnit XML are '
+                'compared with a reference model of enumeration order, validity and success classification.',
+        'note': _TB + '; bracket globs, dot-files, symlinked suites used validly and absolute entries are left out (see evidence assumptions)',
+    },
+    'C20': {
+        'category': 'exploration',
+        'technique': 'runtime monitoring: complete enumeration of help requests and parser probes through the real CLI; set equality between parser-accepted names, help listings and rendered pages; HTML anchor checker',
+        'text': 'Complete enumeration (419 cases, exhaustive, seed independent): every (phase, instruction), suite (section, instruction), '
+                'entity of every entity type, builtin symbol and every internal href of the HTML manual. Three independently observed '
+                'sets (names the parser accepts, names the listings print, names whose page renders) must be equal; every href must hit '
+                'exactly one id.',
+        'note': _TB + '; for instructions a suite section takes over from a phase, the phase page counts as the help entry',
+    },
 }
